@@ -11,6 +11,7 @@ open Oc.Queue
 
 inductive TStep where
   | susp | delay (d : Nat) | panic | ret (v : Nat)
+  | cancelSelf      -- the running task's coroutine is cancelled (`suspender.cancel()`, what the cancel signal does)
 deriving Repr, DecidableEq
 
 inductive PState where
@@ -25,6 +26,7 @@ structure Worker where
   task : Option Nat := none        -- the task it is in the middle of
   rest : List TStep := []
   alive : Bool := true             -- has not returned from its loop
+  plain : Bool := false            -- a user coroutine submitted with `submit_co`: returns at its first resumption
 deriving Repr, DecidableEq
 
 structure Pool where
@@ -42,6 +44,8 @@ structure Pool where
   runningTasks : List (Nat × Nat) := []
   results : List (Nat × Outcome) := []
   waits : List Nat := []
+  /-- tasks whose result nobody wants (`clean_task_result`, i.e. a dropped join handle) -/
+  noWaits : List Nat := []
   /-- workers dropped by a cancel request while parked (their exit is never accounted) -/
   dropped : List Nat := []
   /-- tasks that were in progress inside a worker when it was dropped -/
@@ -62,6 +66,10 @@ def setResult (p : Pool) (t : Nat) (o : Outcome) : Pool :=
   -- results.insert + notify (the waiter entry is removed)
   { p with results := (t, o) :: p.results.filter (fun e => e.1 != t), waits := p.waits.filter (· != t) }
 
+/-- a task is over (finished or skipped for a cancel): publish its result unless nobody wants it -/
+def finish (p : Pool) (t : Nat) (o : Outcome) : Pool :=
+  if p.noWaits.contains t then { p with noWaits := p.noWaits.filter (· != t) } else setResult p t o
+
 def setWorker (p : Pool) (w : Nat) (x : Worker) : Pool := { p with workers := p.workers.set w x }
 
 /-- one resumption of worker `w`: run until it yields or leaves its loop. `fuel` bounds the steps. -/
@@ -72,11 +80,15 @@ def resumeWorker : Nat → Pool → Nat → Pool
     | none => p
     | some x =>
       if !x.alive then p else      -- a worker that has returned is never scheduled again
+      if x.plain then
+        -- a user coroutine: it completes, the listener decrements `running`
+        setWorker { p with running := p.running - 1 } w { x with alive := false }
+      else
       match x.task with
       | some t =>
         match x.rest with
         | [] =>
-          resumeWorker f (setWorker (setResult { p with runningTasks := p.runningTasks.filter (fun e => e.1 != t) } t .none_) w { x with task := none }) w
+          resumeWorker f (setWorker (finish { p with runningTasks := p.runningTasks.filter (fun e => e.1 != t) } t .none_) w { x with task := none }) w
         | .susp :: r =>
           -- yield; the listener tries to grow; a plain yield goes back to the ready queue
           let p := tryGrow (setWorker p w { x with rest := r })
@@ -86,9 +98,13 @@ def resumeWorker : Nat → Pool → Nat → Pool
           let ts := min U64MAX (d + p.now)
           if ts > p.now then { p with suspend := (ts, w) :: p.suspend } else { p with ready := p.ready ++ [w] }
         | .panic :: _ =>
-          resumeWorker f (setWorker (setResult { p with runningTasks := p.runningTasks.filter (fun e => e.1 != t) } t (.err "boom")) w { x with task := none, rest := [] }) w
+          resumeWorker f (setWorker (finish { p with runningTasks := p.runningTasks.filter (fun e => e.1 != t) } t (.err "boom")) w { x with task := none, rest := [] }) w
         | .ret v :: _ =>
-          resumeWorker f (setWorker (setResult { p with runningTasks := p.runningTasks.filter (fun e => e.1 != t) } t (.ok v)) w { x with task := none, rest := [] }) w
+          resumeWorker f (setWorker (finish { p with runningTasks := p.runningTasks.filter (fun e => e.1 != t) } t (.ok v)) w { x with task := none, rest := [] }) w
+        | .cancelSelf :: _ =>
+          -- the worker coroutine ends as Cancelled in the middle of the task: the listener gives
+          -- its slot back and tries to grow; the task never produces a result
+          tryGrow (setWorker { p with running := p.running - 1, droppedTasks := t :: p.droppedTasks } w { x with alive := false })
       | none =>
         match p.tasks.popMin with
         | none =>
@@ -97,7 +113,7 @@ def resumeWorker : Nat → Pool → Nat → Pool
         | some (_, t, q') =>
           let p := { p with tasks := q' }
           if p.cancelTasks.contains t then
-            resumeWorker f (setResult { p with cancelTasks := p.cancelTasks.filter (· != t) } t (.err "The task was cancelled")) w
+            resumeWorker f (finish { p with cancelTasks := p.cancelTasks.filter (· != t) } t (.err "The task was cancelled")) w
           else
             resumeWorker f (setWorker { p with runningTasks := (t, w) :: p.runningTasks, started := p.started ++ [t] } w
               { x with task := some t, rest := p.progs.getD t [] }) w
@@ -146,6 +162,18 @@ def cancelTask (p : Pool) (t : Nat) : Pool :=
   match p.runningTasks.find? (fun e => e.1 == t) with
   | some (_, w) => { p with cancelCos := if p.cancelCos.contains w then p.cancelCos else w :: p.cancelCos }
   | none => { p with cancelTasks := if p.cancelTasks.contains t then p.cancelTasks else t :: p.cancelTasks }
+
+/-- `submit_co`: a user coroutine takes one of the pool's slots; `false` = rejected (pool full) -/
+def submitCo (p : Pool) : Pool × Bool :=
+  if p.state ≠ .running then (p, false)
+  else if p.running ≥ p.maxSize then (p, false)
+  else ({ p with workers := p.workers ++ [{ plain := true }], ready := p.ready ++ [p.workers.length], running := p.running + 1 }, true)
+
+/-- `clean_task_result` (a dropped join handle): take the result if it is there, else remember that
+nobody wants it -/
+def cleanResult (p : Pool) (t : Nat) : Pool :=
+  if p.results.any (fun e => e.1 == t) then { p with results := p.results.filter (fun e => e.1 != t) }
+  else { p with noWaits := if p.noWaits.contains t then p.noWaits else t :: p.noWaits }
 
 def doClean (p : Pool) : Pool :=
   p.waits.foldl (fun p t => setResult p t (.err "The coroutine pool has stopped")) p
